@@ -23,7 +23,7 @@ func init() {
 	}
 }
 
-func nondetDec(label string) Dec {
+func zzvNondetDec(label string) Dec {
 	zz.NoMerge()
 	var d Dec
 	zz.NondetInto(label, &d.dec)
@@ -31,8 +31,8 @@ func nondetDec(label string) Dec {
 }
 
 // nondetDecExp: an arbitrary decimal whose exponent lies in lo..hi, one path per exponent.
-func nondetDecExp(label string, lo, hi int) Dec {
-	d := nondetDec(label)
+func zzvNondetDecExp(label string, lo, hi int) Dec {
+	d := zzvNondetDec(label)
 	zz.Assume(zz.And(int(d.dec.Exponent) >= lo, int(d.dec.Exponent) <= hi))
 	d.dec.Exponent = int32(zz.Concretize(int(d.dec.Exponent), lo, hi))
 	return d
@@ -40,8 +40,8 @@ func nondetDecExp(label string, lo, hi int) Dec {
 
 // C19: Add and Sub never round, never fail within the bounds, and leave operands alone.
 func VerifHarness_C19_AddSub() {
-	x := nondetDec("x")
-	y := nondetDec("y")
+	x := zzvNondetDec("x")
+	y := zzvNondetDec("y")
 	xv, yv := zz.QOf(x), zz.QOf(y)
 	z, err := x.Add(y)
 	zz.Assert(err == nil, "add: no error")
@@ -57,8 +57,8 @@ func VerifHarness_C19_AddSub() {
 
 // C19: balance subtraction never yields a negative value without an error.
 func VerifHarness_C19_SafeBalance() {
-	x := nondetDec("x")
-	y := nondetDec("y")
+	x := zzvNondetDec("x")
+	y := zzvNondetDec("y")
 	xv, yv := zz.QOf(x), zz.QOf(y)
 	z, err := SafeSubBalance(x, y)
 	if err == nil {
@@ -89,7 +89,7 @@ func VerifHarness_C19_SafeBalance() {
 
 // C19: conversion to integer coins truncates toward zero.
 func VerifHarness_C19_SdkIntTrim() {
-	x := nondetDec("x")
+	x := zzvNondetDec("x")
 	// one path per exponent: the divisions by powers of ten become divisions by constants
 	x.dec.Exponent = int32(zz.Concretize(int(x.dec.Exponent), zz.Bound("exp_lo", -12), zz.Bound("exp_hi", 12)))
 	xv := zz.QOf(x)
@@ -108,21 +108,21 @@ func VerifHarness_C19_SdkIntTrim() {
 }
 
 // digits34 is 10^34: decimal128 keeps 34 significant digits.
-func pow10(n int) zz.Q { return zz.QPow10(n) }
+func zzvPow10(n int) zz.Q { return zz.QPow10(n) }
 
 // within34 states that z is x rounded to 34 significant digits: exact when x fits, and
 // otherwise no further than one unit of the 34th digit away (any rounding mode).
-func within34(z, exact zz.Q) bool {
+func zzvWithin34(z, exact zz.Q) bool {
 	// |z - exact| * 10^33 <= |exact|  <=>  relative error at most 10^-33
 	diff := zz.QAbs(zz.QSub(z, exact))
-	return zz.QLe(zz.QMul(diff, pow10(33)), zz.QAbs(exact))
+	return zz.QLe(zz.QMul(diff, zzvPow10(33)), zz.QAbs(exact))
 }
 
 // C19: the exact multiply returns the exact product or an error; the rounding multiply is
 // correct to 34 significant digits; neither modifies its operands.
 func VerifHarness_C19_Mul() {
-	x := nondetDecExp("x", zz.Bound("xexp_lo", -6), zz.Bound("xexp_hi", 2))
-	y := nondetDecExp("y", zz.Bound("yexp_lo", -2), zz.Bound("yexp_hi", 1))
+	x := zzvNondetDecExp("x", zz.Bound("xexp_lo", -6), zz.Bound("xexp_hi", 2))
+	y := zzvNondetDecExp("y", zz.Bound("yexp_lo", -2), zz.Bound("yexp_hi", 1))
 	xv, yv := zz.QOf(x), zz.QOf(y)
 	p := zz.QMul(xv, yv)
 	z, err := x.MulExact(y)
@@ -135,7 +135,7 @@ func VerifHarness_C19_Mul() {
 	w, err := x.Mul(y)
 	zz.Assert(err == nil, "mul: no error within the exponent range")
 	if err == nil {
-		zz.Assert(within34(zz.QOf(w), p), "mul: correct to 34 significant digits")
+		zz.Assert(zzvWithin34(zz.QOf(w), p), "mul: correct to 34 significant digits")
 	}
 	zz.Assert(zz.And(zz.QEq(zz.QOf(x), xv), zz.QEq(zz.QOf(y), yv)), "mul: operands unchanged")
 }
@@ -143,8 +143,8 @@ func VerifHarness_C19_Mul() {
 // C19: the exact divide returns the exact quotient or an error; the rounding divide is
 // correct to 34 significant digits; division by zero is an error.
 func VerifHarness_C19_Quo() {
-	x := nondetDecExp("x", zz.Bound("xexp_lo", -6), zz.Bound("xexp_hi", 2))
-	y := nondetDecExp("y", zz.Bound("yexp_lo", -2), zz.Bound("yexp_hi", 1))
+	x := zzvNondetDecExp("x", zz.Bound("xexp_lo", -6), zz.Bound("xexp_hi", 2))
+	y := zzvNondetDecExp("y", zz.Bound("yexp_lo", -2), zz.Bound("yexp_hi", 1))
 	xv, yv := zz.QOf(x), zz.QOf(y)
 	z, err := x.QuoExact(y)
 	if err == nil {
@@ -157,7 +157,7 @@ func VerifHarness_C19_Quo() {
 	w, err := x.Quo(y)
 	if err == nil {
 		zz.Assert(zz.Not(zz.QEq(yv, zz.QInt(0))), "quo: succeeds only for a non-zero divisor")
-		zz.Assert(within34(zz.QOf(w), zz.QDiv(xv, yv)), "quo: correct to 34 significant digits")
+		zz.Assert(zzvWithin34(zz.QOf(w), zz.QDiv(xv, yv)), "quo: correct to 34 significant digits")
 	} else {
 		zz.Assert(zz.QEq(yv, zz.QInt(0)), "quo: fails only for a zero divisor")
 	}
@@ -167,7 +167,7 @@ func VerifHarness_C19_Quo() {
 // C19: rendering is always plain notation and re-parsing the rendering gives the same
 // number.
 func VerifHarness_C19_StringRoundTrip() {
-	x := nondetDec("x")
+	x := zzvNondetDec("x")
 	xv := zz.QOf(x)
 	s := x.String()
 	zz.Assert(zz.DecPlain(s), "string: plain (non-scientific) notation")
